@@ -34,6 +34,14 @@ func main() {
 		debugExtents(os.Args[2:])
 		return
 	}
+	if id == "protospec" {
+		debugProtoSpec(os.Args[2:])
+		return
+	}
+	if id == "proto" && len(os.Args) > 2 {
+		debugProto(os.Args[2:])
+		return
+	}
 	if id == "retglobals" {
 		debugRetGlobals(os.Args[2:])
 		return
